@@ -121,6 +121,20 @@ Proof.
 Qed.
 Print Assumptions C20_helper_laws.
 
+(* laws for EVERY extent n (not only 2 and 3): symmetry, A:B = tr(A^T B), associativity of the matrix-vector product,
+   (AB)^T = B^T A^T, eye(w, n) acts as w times the identity, tr(u v^T) = u.v, (u v^T) x = (v.x) u *)
+Theorem C20_helper_laws_all_extents : forall R ops, is_ring R ops -> forall n (u v x : vec R) (A B : mat R) (w : R),
+  np_dot n u v = np_dot n v u /\
+  np_ddot n A B = np_trace n (jx_mul_mm n (np_transpose n A) B) /\
+  np_ddot n A B = np_ddot n B A /\
+  (forall i, np_mul n (jx_mul_mm n A B) x i = np_mul n A (np_mul n B x) i) /\
+  (forall i k, np_transpose n (jx_mul_mm n A B) i k = jx_mul_mm n (np_transpose n B) (np_transpose n A) i k) /\
+  (forall i, i < n -> np_mul n (np_eye n w) x i = (w * x i)%F) /\
+  np_trace n (np_prod2 n u v) = np_dot n u v /\
+  (forall i, np_mul n (np_prod2 n u v) x i = (u i * np_dot n v x)%F).
+Proof. intros R ops H n u v x A B w. exact (helper_laws_all_n H n u v x A B w). Qed.
+Print Assumptions C20_helper_laws_all_extents.
+
 (* the NumPy and the JAX variant of each helper present in both modules are the same function
    (per-helper lemmas are generated in Gen.C20Agree from the two translations; 3x3 det below) *)
 Theorem C20_numpy_jax_agree : forall R (ops : FOps R) n (u v w : vec R) (A : mat R) (S T : ten3 R) (c : R) i j k,
